@@ -886,8 +886,11 @@ func runConfigProduct() {
 		}
 	}
 	pats := chk.Pick(1, 2)
-	name := fmt.Sprintf("Encoder_encode, forced version and mask: all 1280 (version,level,mask) x 5 families {numeric, alnum, byte, byte+ECI(ISO-8859-1), kanji(Shift_JIS)} x lengths %s x %d content pattern(s)",
-		map[bool]string{true: "{1, 2, cap/2, cap-1, cap}", false: "{1, 2, 3, cap/4, cap/2, 3cap/4, cap-2, cap-1, cap}"}[chk.Quick()], pats)
+	fullMask := map[int]bool{1: true, 2: true, 6: true, 7: true, 14: true, 21: true, 27: true, 32: true, 36: true, 40: true}
+	name := "Encoder_encode, forced version and mask: all 1280 (version,level,mask) x 5 families {numeric, alnum, byte, byte+ECI(ISO-8859-1), kanji(Shift_JIS)} x lengths {1, 2, 3, cap/4, cap/2, 3cap/4, cap-2, cap-1, cap} x 2 content patterns"
+	if chk.Quick() {
+		name = "Encoder_encode, forced version and mask: 160 (version,level) x 5 families {numeric, alnum, byte, byte+ECI(ISO-8859-1), kanji(Shift_JIS)} x lengths {1, 2, cap/2, cap-1, cap}; all 8 masks on versions {1,2,6,7,14,21,27,32,36,40}, one mask = (version+2*level+3*family+length index) mod 8 elsewhere (all 8 masks occur on every version)"
+	}
 	chk.Range(name, len(jobs),
 		func(i int) string { return fmt.Sprint(jobs[i]) },
 		func(l *mc.Local, i int) {
@@ -899,9 +902,12 @@ func runConfigProduct() {
 			if !chk.Quick() {
 				lens = uniqueLens(cp, 1, 2, 3, cp/4, cp/2, 3*cp/4, cp-2, cp-1, cp)
 			}
-			for _, n := range lens {
+			for k, n := range lens {
 				for pat := 0; pat < pats; pat++ {
 					for mask := 0; mask < 8; mask++ {
+						if chk.Quick() && !fullMask[j.v] && mask != (j.v+2*j.li+3*j.fam+k)%8 {
+							continue
+						}
 						c := mxCase{Kind: "encode", V: j.v, Level: lv.name, Mask: mask, Family: famNames[j.fam], Len: n, Pat: pat}
 						cls, w := runMatrixCase(l, c)
 						report(l, cls, w, c)
@@ -968,16 +974,26 @@ func runCharacterSweeps() {
 // runAllLengths: every payload length 1..capacity (every terminator / bit padding / pad
 // codeword situation) for every family.
 func runAllLengths() {
-	maxV := chk.Pick(9, 40)
+	maxV := chk.Pick(9, 24)
+	const edge = 48
 	type job struct{ v, li, fam, lo, hi int }
 	var jobs []job
-	for v := 1; v <= maxV; v++ {
+	for v := 1; v <= 40; v++ {
+		if v > maxV && chk.Quick() {
+			break
+		}
 		for li := range levels {
 			for fam := 0; fam < famRaw; fam++ {
 				cp := capOf(fam, v, levels[li].ref)
 				step := 64
-				if v > 20 {
-					step = 32
+				if v > 16 {
+					step = 16
+				}
+				if v > maxV {
+					// above maxV only the lengths next to the two ends, where the terminator is
+					// shortened and the pad codeword count changes parity
+					jobs = append(jobs, job{v, li, fam, 1, edge}, job{v, li, fam, cp - edge + 1, cp})
+					continue
 				}
 				for lo := 1; lo <= cp; lo += step {
 					hi := lo + step - 1
@@ -989,10 +1005,13 @@ func runAllLengths() {
 			}
 		}
 	}
-	// longest jobs first would need sorting by version; interleave instead so that the tail of
-	// the range is not dominated by version 40
+	// expensive (high version) jobs first, so that the tail of the range is made of cheap ones
 	sort.SliceStable(jobs, func(a, b int) bool { return jobs[a].v > jobs[b].v })
-	chk.Range(fmt.Sprintf("Encoder_encode, every payload length 1..capacity: versions 1..%d x 4 levels x 5 families (mask = (length+version) mod 8)", maxV), len(jobs),
+	name := fmt.Sprintf("Encoder_encode, every payload length 1..capacity: versions 1..%d x 4 levels x 5 families (mask = (length+version) mod 8)", maxV)
+	if !chk.Quick() {
+		name += fmt.Sprintf("; versions %d..40: the %d shortest and the %d longest lengths", maxV+1, edge, edge)
+	}
+	chk.Range(name, len(jobs),
 		func(i int) string { return fmt.Sprint(jobs[i]) },
 		func(l *mc.Local, i int) {
 			j := jobs[i]
